@@ -43,6 +43,7 @@
 #include "cbdata.h"
 #include "mem/Pool.h"
 #include "mem/Allocator.h"
+#include "time/gadgets.h"
 
 #ifdef VF_THOROUGH
 #define T(quick, thorough) thorough
@@ -403,6 +404,11 @@ extern "C" void c14_order(void)
 }
 
 // ================================================================== K3: the 304 merge
+// src/time/rfc1123.cc is not linked (date parsing is C35's subject): the two Date texts used below are known, anything else is "unparsable"
+#define DATE_OLD "Sun, 09 Sep 2001 01:46:40 GMT"
+#define DATE_NEW "Sun, 09 Sep 2001 01:56:40 GMT"
+time_t Time::ParseRfc1123(const char *s) { return !strcmp(s, DATE_OLD) ? 1000000000 : !strcmp(s, DATE_NEW) ? 1000000600 : -1; }
+
 struct Field { const char *name; const char *value; }; // value template, '\x01' = fully symbolic byte
 static Val fieldValue(const HttpHeader &h, const char *name)
 {
@@ -426,7 +432,7 @@ extern "C" void c14_merge(void)
     Config.maxReplyHeaderSize = 65536; // default reply_header_max_size
     squid_curtime = 1000000600;
     // the cached 200 reply
-    static const Field stored[] = { {"Date", "Sun, 09 Sep 2001 01:46:40 GMT"}, {"Content-Type", "text/plain"}, {"ETag", "\"a\""}, {"Content-Length", "5"},
+    static const Field stored[] = { {"Date", DATE_OLD}, {"Content-Type", "text/plain"}, {"ETag", "\"a\""}, {"Content-Length", "5"},
                                     {"X-A", "old"}, {"X-C", "keep"}, {"Vary", "x-v"} };
     const unsigned nStored = sizeof(stored) / sizeof(*stored);
     HttpReply *rep = new HttpReply;
@@ -457,7 +463,8 @@ extern "C" void c14_merge(void)
     const unsigned which = vf_choose(sizeof(sets) / sizeof(*sets), "set");
     HttpReply *r304 = new HttpReply;
     r304->sline.set(Http::ProtocolVersion(1, 1), Http::scNotModified);
-    addField(r304->header, "Date", "Sun, 09 Sep 2001 01:56:40 GMT");
+    const char *const date304 = which == 4 ? DATE_OLD : DATE_NEW; // set 4: a 304 that brings nothing new at all
+    addField(r304->header, "Date", date304);
     Val sent[3]; unsigned nSent = 0;
     for (const Field *f = sets[which]; f->name; ++f) {
         sent[nSent] = fillVal(f->value, "v");
@@ -488,7 +495,7 @@ extern "C" void c14_merge(void)
         if (which == 5) { expect = sent[0]; expect.b[expect.n++] = ','; expect.b[expect.n++] = ' '; expect.b[expect.n++] = '2'; } // lines joined
         vf_assert(sameVal(fieldValue(fresh.header, f->name), expect), "later hits carry the field value the origin's 304 supplied");
     }
-    vf_assert(sameVal(fieldValue(fresh.header, "Date"), fillVal("Sun, 09 Sep 2001 01:56:40 GMT", "")), "later hits carry the 304's Date");
+    vf_assert(sameVal(fieldValue(fresh.header, "Date"), fillVal(date304, "")), "later hits carry the 304's Date");
     // stored fields the 304 did not mention stay
     for (unsigned k = 1; k < nStored; ++k) {
         bool mentioned = false;
